@@ -124,6 +124,16 @@ Theorem C17_broker_serialised : forallb broker_ok broker_io = true /\
 Proof. exact broker_serialised. Qed.
 Print Assumptions C17_broker_serialised.
 
+(* every function that installs a cipher on a Stream (SetSymmetricKey,
+   NewStreamWithCryptoState) freezes BOTH handshake digests itself, so the lazily
+   finalising code on the two paths (SWOnce / SPre accesses) can no longer write by the
+   time a writer and a reader goroutine share the stream - the premise of C17_stream_split *)
+Theorem C17_digests_frozen_at_key_install :
+  forallb installer_ok key_installers = true /\
+  existsb (fun k => String.eqb (ki_fn k) "stream.Stream.SetSymmetricKey") key_installers = true.
+Proof. exact digests_frozen_at_key_install. Qed.
+Print Assumptions C17_digests_frozen_at_key_install.
+
 (* after the handshake digests are finalised, no Stream field written on the send
    path is touched on the receive path and vice versa *)
 Theorem C17_stream_split : stream_split_ok stream_send stream_recv = true.
